@@ -117,6 +117,11 @@ def _as_text(p: Poly, repl: Callable[[Tuple[Any, ...]], Optional[Poly]]) -> Opti
         return str(v)
 
     t = tpl_shape(p, hole)
+    if t is None and not bad:
+        # a variable the replacement turns into a string
+        q = replace_atoms(p, repl)
+        if q != p:
+            t = tpl_shape(q, hole)
     if t is None or bad:
         return None
     return t
